@@ -88,3 +88,48 @@ pub proof fn lemma_removed_is_unresolvable(n: Nodes, m: Nodes, root: ModuleNodeI
 pub open spec fn first_is(o: Option<&ModuleInfo>, idx: int, fm: FileMap, fs: Seq<FileId>) -> bool {
     match o { Some(i) => idx > 0 && *i == fm[fs[0]], None => idx == 0 }
 }
+
+/// FINDING witness (C08 "re-submitting an unchanged file leaves module resolution unchanged" / C33 "the choice among files sharing a
+/// module name"): the choice depends on the ORDER of a node's file list, and re-registering a file - which is what re-submitting the
+/// unchanged file does: `remove` leaves `fids_not(files, a)` (C10.module.no-dead-node), `add_module_by_module_path` pushes `a` at the
+/// end (tree_added) - moves it behind the others. With two visible files [a, b] under one module path the path resolves to `a`
+/// before and to `b` after the re-submission of `a`. (This lemma VERIFIES: it is a machine-checked counterexample built from the
+/// exact contracts of remove / add / exact_find_module, not an obligation of the unit.)
+pub proof fn lemma_resubmission_changes_choice(a: FileId, b: FileId, fm: FileMap)
+    requires a != b, !hidden(fm[a]), !hidden(fm[b]),
+    ensures picked(seq![a, b], fm) == Some(a), picked(fids_not(seq![a, b], a).push(a), fm) == Some(b),
+{
+    let s = seq![a, b];
+    assert(first_shown(s, fm, 0) == 0);
+    lemma_fids_not_contains(s, a, b);
+    lemma_fids_not_gone(s, a);
+    lemma_filter_len(s, not_file(a));
+    let t = fids_not(s, a);
+    assert(s[1] == b && s.contains(b));
+    assert(t.contains(b));
+    // t has no `a`, has `b`, and is a sub-list of a two-element list: t == [b]
+    assert(t.len() >= 1);
+    lemma_fids_not_nodup_pair(a, b);
+    assert(t =~= seq![b]);
+    let u = t.push(a);
+    assert(u =~= seq![b, a]);
+    assert(first_shown(u, fm, 0) == 0);
+}
+
+pub proof fn lemma_fids_not_nodup_pair(a: FileId, b: FileId)
+    requires a != b,
+    ensures fids_not(seq![a, b], a) =~= seq![b],
+{
+    reveal_with_fuel(Seq::filter, 4);
+    let s = seq![a, b];
+    let p = not_file(a);
+    let s1 = s.drop_last();
+    assert(s1 =~= seq![a]);
+    assert(s1.len() == 1 && s1.last() == a && !p(a));
+    let s0 = s1.drop_last();
+    assert(s0.len() == 0);
+    assert(s0.filter(p) =~= Seq::<FileId>::empty());
+    assert(s1.filter(p) =~= Seq::<FileId>::empty());
+    assert(s.last() == b && p(b));
+    assert(s.filter(p) =~= s1.filter(p).push(b));
+}
